@@ -88,9 +88,10 @@ def step16 (d : D16) (op : String) (got : String) : StepResult D16 :=
   if got == "skip" then { st := { cands := [] }, cov := ["skipped-after-deadlock"] }   -- the harness process is wedged (reported before)
   else if op.startsWith "new " then
     match op.splitOn " " with
-    | ["new", _kind, dflt] =>
+    | ["new", _kind, dflt] | ["new", _kind, dflt, "mgmt"] =>
       match Name.ofText dflt with
-      | some x => { st := { cands := [SSt.init x] }, expected := some "ok" }
+      | some x => { st := { cands := [SSt.init x] }, expected := some "ok",
+                    cov := if (op.splitOn " ").length == 4 then ["via-management"] else [] }
       | none => { st := d, expected := some "bad-op" }
     | _ => { st := d, expected := some "bad-op" }
   else if op.startsWith "faces," then
